@@ -87,7 +87,9 @@ pub mod watchdog {
             if st != 0 {
                 let wall = now_ms().saturating_sub(st);
                 let cpu = cpu_ms().saturating_sub(START_CPU_MS.load(Ordering::SeqCst));
-                if cpu > limit_ms || wall > 8 * limit_ms {
+                // (or blocked: well past the limit in wall time with next to no CPU used - a call waiting for a
+                // lock its own thread holds burns nothing)
+                if cpu > limit_ms || wall > 8 * limit_ms || (wall > 2 * limit_ms && cpu < wall / 100) {
                     std::process::exit(4);
                 }
             }
